@@ -243,6 +243,8 @@ pub fn liq_weights() -> Weights {
     w.ecfg = 4;
     // liquidation attempts 1-15 minutes after a move that puts the target below maintenance at the spot price only
     w.lag = 4;
+    // the prepaid-bad-debt counter brought to exactly (or one unit beside) the bad debt of the liquidation that follows
+    w.match_prepaid = 4;
     w
 }
 
